@@ -32,6 +32,7 @@ const pushInterval = time.Second
 type c27Case struct {
 	Slow      bool  `json:"slow_subscriber"`
 	LateSub   bool  `json:"subscribe_after_changes"`
+	Leaver    bool  `json:"leaving_subscriber,omitempty"`
 	Bound     int   `json:"preemption_bound"`
 	Choices   []int `json:"choices,omitempty"`
 }
@@ -142,6 +143,69 @@ func subscriber(name string, slow bool, startDelay time.Duration) schedThread {
 	}}
 }
 
+// leaver is a subscriber that goes away the way an RPC client does: its context is cancelled, it
+// stops reading at once, and Unsubscribe is called later by somebody else (calcium.WatchServiceStatus
+// hands it to a pool goroutine, which may be late) - here after one and a half push intervals, so
+// that at least one dispatch happens while the gone subscriber is still in the table.
+func leaver(name string) schedThread {
+	return schedThread{Name: name, Run: func(ctx context.Context, x *schedRun) {
+		o := getC27(x)
+		x.Yield(name, "subscribe")
+		sctx, cancel := context.WithCancel(ctx)
+		id, ch := o.h.Subscribe(sctx)
+		x.Event("%s subscribed", name)
+		end := 1200 * time.Millisecond
+		for x.Now() < end {
+			select {
+			case st, ok := <-ch:
+				if !ok {
+					x.mu.Lock()
+					o.closed[name] = true
+					x.mu.Unlock()
+					cancel()
+					return
+				}
+				addrs := append([]string{}, st.Addresses...)
+				sort.Strings(addrs)
+				x.mu.Lock()
+				o.msgs[name] = append(o.msgs[name], subMsg{at: x.Now(), addrs: addrs})
+				x.mu.Unlock()
+			case <-time.After(end - x.Now() + time.Millisecond):
+			}
+		}
+		cancel()
+		x.mu.Lock()
+		o.readUntil[name] = x.Now()
+		x.mu.Unlock()
+		x.Event("%s: context cancelled, no longer reading", name)
+		time.Sleep(pushInterval + pushInterval/2)
+		x.Yield(name, "unsubscribe")
+		done := make(chan struct{})
+		go func() {
+			o.h.Unsubscribe(id)
+			close(done)
+		}()
+		select {
+		case <-done:
+			x.mu.Lock()
+			o.unsubOK[name] = true
+			x.mu.Unlock()
+			select {
+			case _, ok := <-ch:
+				if !ok {
+					x.mu.Lock()
+					o.closed[name] = true
+					x.mu.Unlock()
+				}
+			case <-time.After(3 * pushInterval):
+			}
+			x.Event("%s unsubscribed", name)
+		case <-time.After(30 * time.Second):
+			x.Event("%s: Unsubscribe still blocked after 30 s", name)
+		}
+	}}
+}
+
 func c27Scenario(cc *c27Case) *schedScenario {
 	sc := &schedScenario{Name: "discovery", Opts: world.InstanceOpts{NoWAL: true}, Horizon: 3 * time.Minute, Quantum: 500 * time.Millisecond, ExtraNames: []string{"H"}}
 	sc.Threads = append(sc.Threads, schedThread{Name: "Reg", Run: func(ctx context.Context, x *schedRun) {
@@ -183,6 +247,9 @@ func c27Scenario(cc *c27Case) *schedScenario {
 	if cc.Slow {
 		sc.Threads = append(sc.Threads, subscriber("S2", true, 0))
 	}
+	if cc.Leaver {
+		sc.Threads = append(sc.Threads, leaver("S3"))
+	}
 	// heartbeats of the registrations are not scheduling points (they do not change the set)
 	sc.Control = func(thread string, s world.Step) bool {
 		return !(s.Layer == "etcd" && (s.Kind == "keepalive"))
@@ -199,7 +266,7 @@ func c27Explore(t *testing.T, c *vcore.Ctx) {
 	if dir == "" {
 		dir = t.TempDir()
 	}
-	c.SetRule("registrar (register a, register b, deregister a, keep b) + prompt subscriber (subscribing at once or after the changes) + optional slow reader (one read per 1.5 s) on the real helium over the real etcd ServiceStatusStream, push interval 1 s; all interleavings of the scheduling points within the preemption bound; non-trivial = schedules in which a subscriber received at least two different address sets")
+	c.SetRule("registrar (register a, register b, deregister a, keep b) + prompt subscriber (subscribing at once or after the changes) + optional slow reader (one read per 1.5 s) or leaving subscriber (context cancelled at 1.2 s, stops reading at once, Unsubscribe called 1.5 s later) on the real helium over the real etcd ServiceStatusStream, push interval 1 s; all interleavings of the scheduling points within the preemption bound; non-trivial = schedules in which a subscriber received at least two different address sets")
 	c.Assume("the watch is registered synchronously in memetcd; the real client's asynchronous watch registration is outside what is explored")
 	b := world.NewBackend(dir, false)
 	defer b.Close()
@@ -219,7 +286,7 @@ func c27Explore(t *testing.T, c *vcore.Ctx) {
 		bound = 3
 	}
 	c.Bound("preemption_bound_completed", bound)
-	for _, cc := range []c27Case{{Bound: bound}, {LateSub: true, Bound: bound}, {Slow: true, Bound: bound - 1}, {Slow: true, LateSub: true, Bound: bound - 1}} {
+	for _, cc := range []c27Case{{Bound: bound}, {LateSub: true, Bound: bound}, {Slow: true, Bound: bound - 1}, {Slow: true, LateSub: true, Bound: bound - 1}, {Leaver: true, Bound: bound - 1}} {
 		cc := cc
 		if c.Expired() {
 			c.CapHit("budget reached")
@@ -243,6 +310,9 @@ func c27Check(c *vcore.Ctx, cc *c27Case, x *schedRun, choices []int) {
 		if cc.Slow {
 			cls = "with-slow-reader"
 		}
+		if cc.Leaver {
+			cls = "with-leaving-subscriber"
+		}
 		c.Violate("C27/"+cls+"/"+sig, fmt.Sprintf(f, a...)+" | scenario="+vcore.JSON(cc)+" events="+fmt.Sprint(x.Events), rc)
 	}
 	if x.Stuck != "" {
@@ -255,6 +325,9 @@ func c27Check(c *vcore.Ctx, cc *c27Case, x *schedRun, choices []int) {
 	names := []string{"S1"}
 	if cc.Slow {
 		names = append(names, "S2")
+	}
+	if cc.Leaver {
+		names = append(names, "S3")
 	}
 	distinct := 0
 	for _, n := range names {
